@@ -281,7 +281,18 @@ def more_cases(rng, n):
             elif form < 0.7:
                 text = "R%s/%s/%s" % (reps, interval, start)
             elif form < 0.9:
-                text = "R%s/%s/%s" % (reps, start, iso_point(rng, m))
+                # start/second-point: keep the two points within two centuries of each other - the cost of deriving
+                # the interval is linear in the days spanned (known finding F10), and a wider span only measures it
+                second = start
+                for _ in range(20):
+                    cand = iso_point(rng, m)
+                    ya, yb = re.match(r"[+-]?\d{1,6}", start), re.match(r"[+-]?\d{1,6}", cand)
+                    if ya and yb and len(ya.group(0).lstrip("+-")) == len(yb.group(0).lstrip("+-")) and \
+                            abs(int(ya.group(0)[:5 if ya.group(0)[0] in "+-" else 4])
+                                - int(yb.group(0)[:5 if yb.group(0)[0] in "+-" else 4])) <= 150:
+                        second = cand
+                        break
+                text = "R%s/%s/%s" % (reps, start, second)
             else:
                 text = rng.choice(["R%s/%s" % (reps, start), "R%s/%s/%s/%s" % (reps, start, interval, start),
                                    "R%s/%s/%s/%s" % (reps, interval, start, interval), "R%s//%s" % (reps, start),
